@@ -14,8 +14,8 @@ import (
 var longComp = strings.Repeat("L", 60) + "-" + strings.Repeat("n", 59)
 var nameUniverse = []string{"a", "ab", "a_", "a%", "a.b", "a b", "ä", "aä", ".h", "%", "_", "x.gz", "y.zst", "z.age", "w.pgp", longComp, "A", "AB", "Ä"} // incl. names that differ only in case
 
-// exotic components: characters that are special to tar, SQL, shells, globbing, Go path handling or terminals
-var exoticNames = []string{"...", "..a", "a\nb", "a\\b", "it's", "a*", "a?", "[a]", "a:b", "trail ", "dot.", "\U0001F600", "a\tb", "\"q\"", "-rf", "~", "a;b", "$x", "a=b", "#", "caf\xe9-latin1", strings.Repeat("z", 300), strings.Repeat("w", 70000)}
+// exotic components ("cafe\u0301", "A\u030a": decomposed accents as macOS clients send them - names are bytes, not normalised): characters that are special to tar, SQL, shells, globbing, Go path handling or terminals
+var exoticNames = []string{"...", "..a", "a\nb", "a\\b", "it's", "a*", "a?", "[a]", "a:b", "trail ", "dot.", "\U0001F600", "a\tb", "\"q\"", "-rf", "~", "a;b", "$x", "a=b", "#", "caf\xe9-latin1", "cafe\u0301", "A\u030a", strings.Repeat("z", 300), strings.Repeat("w", 70000)}
 
 func hasCodecSuffix(n string) bool {
 	for _, s := range []string{".gz", ".lz4", ".zst", ".br", ".bz2", ".age", ".pgp"} {
@@ -39,6 +39,7 @@ type GenOpts struct {
 	Intruder  bool // C05: during some batched archive calls another writer appends an end-of-archive marker to the tape
 	Late      bool // C02: a handle left idle while another handle rewrites the file, then written and closed
 	Twins     bool // batched members all carry ONE size, mode and modification time: names re-used after a move or delete get records whose metadata is identical to the earlier entry's, only content and position differ
+	FarTimes  bool // chtimes with years such as 1000, 1648, 2400, 9999 (C01, C07: compared between instances, not with the reference model)
 	Exotic    bool // unusual names, path spellings, owners, timestamps, permission values, deeper trees
 }
 
@@ -224,7 +225,10 @@ func (g *Gen) exoticise(op *Op) {
 			op.At, op.Mt = exoticTimes[r.Intn(len(exoticTimes))], exoticTimes[r.Intn(len(exoticTimes))]
 		}
 		if r.Intn(3) == 0 {
-			op.Zone = []int{7200, -18000, 19800, 45 * 60}[r.Intn(4)]
+			op.Zone = []int{7200, -18000, 19800, 45 * 60, 1172, -17762}[r.Intn(6)] // the last two: local mean times (offsets with seconds, what time.LoadLocation yields for dates before standard time)
+		}
+		if g.o.FarTimes && r.Intn(3) == 0 {
+			op.Far = 1 + r.Intn(4)
 		}
 	case "chmod", "mkdir", "mkdirall":
 		if r.Intn(3) == 0 {
